@@ -305,6 +305,23 @@ def handle_strings():
         for c in [(60.0, -30.0), S, E] + ([refl, pc_] if pc_ is not None else []):
             for th in thirds:
                 out.append("%s Q %s %s %s" % (head, f(c), f(E), th))
+    # a curve, then something that is NOT a curve, then a curve whose first handle repeats the last handle of the
+    # EARLIER curve (as a vector from its own start, or as the absolute reflected point): only the command written
+    # immediately before may lend its handle to S / T, however alike an earlier one looks
+    for ptxt, pc_ in prevs:
+        if pc_ is None:
+            continue
+        quad = ptxt.startswith("Q")
+        for itxt, s2 in (("L 70,10", (70.0, 10.0)), ("M 70,10", (70.0, 10.0)), ("A 25,25 0 0 1 70,10", (70.0, 10.0)),
+                         ("H 70", (70.0, 0.0)), ("z", (0.0, 0.0)), ("L 40,0", S), ("L 70,10 L 40,0", S), ("z M 40,0", S)):
+            vec = (s2[0] + S[0] - pc_[0], s2[1] + S[1] - pc_[1])
+            refl = (2 * S[0] - pc_[0], 2 * S[1] - pc_[1])
+            for c1 in (vec, refl):
+                for th in ("", "T 150,0" if quad else "S 130,20 150,0"):
+                    if quad:
+                        out.append("M 0,0 %s %s Q %s 110,5 %s" % (ptxt, itxt, f(c1), th))
+                    else:
+                        out.append("M 0,0 %s %s C %s 100,-30 110,5 %s" % (ptxt, itxt, f(c1), th))
     seen = set()
     return [x.strip() for x in out if not (x in seen or seen.add(x))]
 
